@@ -820,7 +820,10 @@ class LibsModel:
             if k is not None and has_const(k) and isinstance(cval(k), str) and recv.open_kw:
                 # one entry of a **kwargs mapping: depends on that entry, not on the whole mapping
                 d = frozenset((x + f'[{cval(k)}]') if (x.startswith('param:') and '#' not in x and '[' not in x and x in (recv.deps or ())) else x for x in d)
-            return join(el, dflt).w(deps=d)
+            got = None
+            if node is not None and isinstance(node.func, ast.Attribute) and node.args:
+                got = (interp.sx_build(node.func.value), interp.sx(node.args[0]), cval(dflt) if has_const(dflt) else '?')
+            return join(el, dflt).w(deps=d, got_from=got)
         if name == 'setdefault':
             k, v = args[0], (args[1] if len(args) > 1 else const(None))
             if recv.instance_dict_of is not None:
